@@ -83,6 +83,15 @@ func genC08(r *Rng, tier string) *World {
 		cfgs = append(cfgs, c)
 		w.Schemas = append(w.Schemas, GenNode(r, &c, 0, true))
 	}
+	if r.P(0.12) {
+		// top-level schemas that return an issue *list*: a Preprocess in front of a list (its items push path segments)
+		// next to a plain primitive
+		w.Schemas[0] = &Node{Kind: "pre", CT: "str_list", Elem: &Node{Kind: "slice", Elem: &Node{Kind: "string", Req: true,
+			Tests: []TestSpec{{T: "min", N: int64(1 + r.Intn(3))}, {T: "custom", Mod: 0, Code: "c0"}}}}}
+		if len(w.Schemas) > 1 {
+			w.Schemas[1] = genKind(r, &cfgs[1], Pick(r, []string{"string", "int", "bool"}), 0)
+		}
+	}
 	nt := 2 + r.Intn(3)
 	for t := 0; t < nt; t++ {
 		var ops []Op
@@ -91,6 +100,10 @@ func genC08(r *Rng, tier string) *World {
 			op.Collect = Pick(r, []string{"", "", "CollectMap", "Collect", "SanitizeMapAndCollect", "SanitizeListAndCollect"})
 			if r.P(0.25) {
 				withFront(r, w, &op, false)
+			}
+			if sn := w.Schemas[op.Schema]; sn.Kind == "pre" && sn.CT == "str_list" {
+				op.Kind, op.Front, op.IO = "parse", "", nil
+				op.Input = VS(Pick(r, []string{"a,b", "x", "a,,b", "q,w,e,r", "abc,de,f", ",", "ab,ERR"}))
 			}
 			ops = append(ops, op)
 		}
@@ -263,6 +276,7 @@ func genC19(r *Rng, tier string) *World {
 		}
 	})
 	w.Schemas = []*Node{root}
+	aliasDest := root.Kind == "struct" && r.P(0.3)
 	mk := func() Op {
 		op := Op{Schema: 0}
 		if r.P(0.45) {
@@ -274,7 +288,7 @@ func genC19(r *Rng, tier string) *World {
 			if missing {
 				v = VNil()
 			}
-			if r.P(0.5) {
+			if r.P(0.5) || aliasDest {
 				v = typedLists(root, v)
 			}
 			op.Input = v
@@ -313,6 +327,9 @@ func genC19(r *Rng, tier string) *World {
 		return w
 	}
 	w.Family = "history"
+	if aliasDest {
+		w.Params["alias_dest"] = 1
+	}
 	var ops []Op
 	n := 2 + r.Intn(5)
 	for i := 0; i < n; i++ {
@@ -586,6 +603,27 @@ func runC19(x *X) *Violation {
 		o := *op
 		o.Arg = "given"
 		x.given = inputGo
+		if w.P("alias_dest") == 1 && op.Kind == "parse" && req == nil && root.Kind == "struct" {
+			// the destination was filled from this very value before (`dst := src`, or a previous result fed back in): its
+			// slices share storage with the input's
+			x.destHook = func(dest reflect.Value, data any) {
+				m, ok := data.(map[string]any)
+				if !ok {
+					return
+				}
+				for _, f := range root.Fields {
+					if f.N.Kind != "slice" {
+						continue
+					}
+					rv := reflect.ValueOf(m[SourceKey(f, "")])
+					df := dest.Elem().FieldByName(GoName(f.Key))
+					if rv.IsValid() && df.IsValid() && df.CanSet() && rv.Type() == df.Type() && rv.Len() > 0 {
+						df.Set(rv)
+						x.Probes["destination_shares_input_storage"]++
+					}
+				}
+			}
+		}
 		for _, s := range seen {
 			if s.key == key {
 				x.forceVisitsFrom(s.phase, "o"+strconv.Itoa(i)+"/")
@@ -595,6 +633,7 @@ func runC19(x *X) *Violation {
 		x.SetPhase("o" + strconv.Itoa(i) + "/")
 		res := x.Exec("0:"+strconv.Itoa(i), &o)
 		x.given = nil
+		x.destHook = nil
 		if res.Panic != "" {
 			return &Violation{Class: "C19/panic mode=" + op.Kind, Detail: res.Panic}
 		}
